@@ -123,7 +123,7 @@ def _cross_process(ctx):
     path = os.path.join(d, "moves.pkl")
     try:
         outs = []
-        for role, seed in (("produce", "11"), ("consume", "22")):
+        for role, seed in (("produce", "11"), ("consume", "22"), ("lateimport", "33")):
             e = dict(os.environ, PYTHONHASHSEED=seed)
             r = subprocess.run([env.PYTHON, "-m", "harness.lib.c07_xproc", role, path], cwd=env.VERIF, env=e, stdout=subprocess.PIPE, stderr=subprocess.PIPE, text=True, timeout=600)
             outs.append(r)
@@ -132,6 +132,7 @@ def _cross_process(ctx):
                 return divs
         line = [l for l in outs[1].stdout.splitlines() if l.startswith("C07X ")][-1]
         res = json.loads(line[5:])
+        late = json.loads([l for l in outs[2].stdout.splitlines() if l.startswith("C07X ")][-1][5:])["tables"]
     finally:
         import shutil
 
@@ -151,6 +152,15 @@ def _cross_process(ctx):
                     break
             if not x["equal_to_local"]:
                 divs.append(Divergence("impl.cross-process", {"check": "cross-process", "size": int(n), "moves": name, "call": "=="}, "unpickled move != decode_move of its id", "equal"))
+    for n, name in res.get("held_changed", []):
+        divs.append(Divergence("impl.returned-list", {"check": "returned-list-modified", "size": int(n), "what": "encode_moves_batch result held across later calls"},
+                               "the tensor returned by encode_moves_batch(%s, …) changed when other batches were encoded afterwards" % n, "a result keeps its value"))
+    for n in sorted(res["before"]):
+        ctx.evaluated(len(res["before"][n]["decode"]))
+        if late.get(n) != res["before"][n]:
+            lb = late.get(n, {"decode": []})
+            divs.append(Divergence("impl.returned-list", {"check": "returned-list-modified", "size": int(n), "what": "tables when the move generator was used before tak.model.encoding was first imported"},
+                                   "%d ids (%s…)" % (len(lb["decode"]), str(lb["decode"][:3])), "%d ids, the same table" % len(res["before"][n]["decode"])))
     for n in sorted(res["before"]):
         b, a = res["before"][n], res["after"][n]
         ctx.evaluated(len(b["decode"]))
